@@ -6,7 +6,8 @@ import scen
 
 
 def apalache(root, inv, work, extra=(), timeout=900, init="Init", nxt="Next"):
-    out = work.path("apa-%d" % (int(time.time() * 1000) % 10000000))
+    import uuid as _uuid
+    out = work.path("apa-" + _uuid.uuid4().hex[:12])     # unique also across parallel invocations
     cmd = ["timeout", str(timeout), "apalache-mc", "check", "--cinit=ConstInit", "--init=" + init, "--next=" + nxt, "--inv=" + inv, "--length=0", "--out-dir=" + out] + list(extra) + [root]
     t0 = time.time()
     p = subprocess.run(cmd, cwd=work.dir, stdout=subprocess.PIPE, stderr=subprocess.STDOUT, text=True)
